@@ -2,7 +2,8 @@
 correctly timed server commands.
 
 Four monitors (round 8: two more shard kinds, `fault` and `control`, on the
-play / timeline oracles - see the end), all NRT, all against the reference
+play / timeline oracles; round 9: key sets in every pattern workload and
+player control over mono lines - see the end), all NRT, all against the reference
 model vf/model_events.py
 (written from the SuperCollider Event / Scale / pattern documentation, no sc3
 import) and the independent OSC decoder vf/osc.py:
@@ -115,6 +116,50 @@ Classes of behaviour added in round 8:
             the case passes - Pkey columns written out, Pchain built by the
             constructor - else Pevent); the db and velocity look-ups of
             AmplitudeKeys in the chain monitor.
+Classes of behaviour added in round 9:
+
+  key sets (argument shape)   a TUPLE as key of a Pbind / Pmono mapping whose
+            value pattern yields one list (or tuple) per event that is spread
+            over the keys (Pbind help: multi-key assignment): lists as long
+            as the key set and LONGER ones (legal: the surplus is ignored),
+            key sets of 1-3 keys over any columns (instrument, tag, timing,
+            pitch, amplitude, controls, Rest objects, None / inf deltas),
+            constant rows, placed first / between / after plain keys, one or
+            two per mapping, in Pbind, Pmono, PmonoArtic and the left operand
+            of a Pchain - in EVERY workload that plays patterns (timeline,
+            re-use, special, control, entry, pattern faults: c14_gen.
+            with_key_sets rewrites 25-30 % of the cases, the rows of the
+            pattern stay what they were by construction, so the oracle is the
+            unchanged timeline model).  A difference that disappears when the
+            surplus values are removed / the key sets are written out as
+            plain keys gets C14/key-set/<value-list-longer-than-the-key-set |
+            one-value-per-key>/<time-line-differs | message-content-differs |
+            ...> (.../key-set-raises/... for exceptions).  A list that is too
+            SHORT (or no list) is an error path: not decided from that row on
+            (SuperCollider ends the stream, this library plays what the keys
+            before the key set give) - generated as a pattern fault
+            (`short-key-set`): rows before it and players beside it as usual.
+            A stream that never ends (a Pbind that lost the column that ends
+            it) is cut short by the harness (c14_run._bounded) and reported
+            as .../player-still-running-long-after-its-end.
+  player control over mono lines (histories)   stop / reset / pause / resume /
+            play / reset + play / play(reset=True) on players of Pmono and
+            PmonoArtic lines (alone, before / after a Pbind, two lines, Pn,
+            below Pdelta / Pdur) called WHILE THE NODE OF A LINE IS ALIVE,
+            also after an event of the line FAILED in play() and left the
+            player dead with the node alive (stop and / or restart follow,
+            the pattern repaired in between or not): every run of the stream
+            creates its nodes anew, every node is set by its line's later
+            events and released EXACTLY ONCE (me.controlled_voices: by its
+            pattern, by stop(), not before the reset that ends its run, not
+            before the failure) - C14/player-control-mono/node-released-
+            twice/at-<reset | stop | no-call>, .../<after-call>/node-never-
+            released | node-released-at-wrong-time | mono-set-... | time-
+            line-differs.  The stop-replay re-use histories of the timeline
+            monitor restart the SAME player (reset() + play(), play(reset=
+            True)) two times out of three, over any composition (Ppar /
+            Pdur / Pchain over mono lines): C14/timeline-object-reuse/same-
+            player-restarted-after-stop/<node-released-twice | ...>.
 """
 
 import itertools
@@ -153,6 +198,13 @@ RULE = ("seeded random cases. chain: explicit key sets over the pitch "
         "with Pkey / Pevent / Pchain.chain, players beside a pattern whose "
         "k-th event fails; chain: db and velocity looked up for every "
         "event. "
+        "round 9: 25-30% of all pattern cases carry key sets (tuple keys, "
+        "1-3 keys, rows as long as the key set or 1-2 values longer, list / "
+        "tuple rows, constant rows, 1-2 key sets per mapping); short rows as "
+        "pattern faults; mono-control: players of Pmono / PmonoArtic lines "
+        "(7 shapes) under 1-8 control calls without mute, 40% with a failing "
+        "element (repair before the restart 70%); stop-replay re-use: same "
+        "player restarted 2 of 3. "
         "Distinct = hash of the spec. "
         "Kept out (audit 2026-09-26, each justified in AUDIT below): harmonic "
         "!= 1 with an explicit freq, db with velocity without amp, arrayed "
@@ -211,6 +263,22 @@ failed first play leaves its control list: genuine
   (proposed_fixes/C14-failed-first-play-keeps-control-list.md)           | reported
 reset of a playing player on a TempoClock forgets the clock: genuine
   (proposed_fixes/C14-reset-while-playing-forgets-clock.md)              | reported
+round 9:
+key set with FEWER values than keys (or no list): what follows in that
+  stream | SuperCollider ends the stream, this library plays a partial
+  event; the statement is silent                                         | tolerated
+release of a mono node by reset / reset + play: 'not before the call' |
+  statement silent (this library releases at the call)                   | bounded
+mono node alive when its line's event failed: released once, not before the
+  failure; never when no call follows | nobody is asked to release it     | bounded
+release registered for a node whose creating event failed (one per dead
+  run) | the failing play's own business                                 | tolerated
+mono lines under control: no mute, sequential compositions, no rests in the
+  first row | a muted start / a leading rest of a mono line is not defined | kept out
+same player restarted on ANOTHER clock object while its wake-up on the old
+  clock is pending (it is then woken by both) | the clocks' business       | kept out
+reset() raises TypeError when a Pmono follows in a Pseq / Pn: genuine
+  (proposed_fixes/C14-reset-runs-next-pattern-of-sequence.md)            | reported
 """
 ASSUMPTIONS = [
     "vf/model_events.py is the meaning of 'documented chains' and of the "
@@ -226,6 +294,13 @@ ASSUMPTIONS = [
     "(chain keys the user never gave, msg_params without is_playing) are "
     "read for the NAME of the mechanism only; the verdict is the traffic "
     "/ look-up difference against vf/model_events.py",
+    "key sets: the rows of a Pbind with key sets are the rows of the same "
+    "Pbind with the keys written out (vf/model_events.py _bind_events: value "
+    "j to key j, surplus dropped - Pbind help)",
+    "mono lines under control: vf/model_events.py controlled_voices() is the "
+    "meaning of 'every node is released exactly once'; the NRT scheduler is "
+    "cut short (observation only) when its next wake-up lies beyond twice "
+    "the model's duration of the case plus 60 s",
     "player control: vf/model_events.py controlled() is the meaning of "
     "pause / resume / reset / mute (PauseStream / EventStreamPlayer help); "
     "all deltas are multiples of 1/64, control calls lie at odd multiples "
@@ -301,6 +376,41 @@ _NEW_MIN8 = {
     'chain_db_from_amp': 3000, 'chain_db_from_velocity': 1500,
     'chain_velocity_from_amp': 3000, 'chain_velocity_from_db': 1500,
 }
+# monitors added in round 9 (key sets; player control over mono lines; the
+# same player restarted): quick minimum (about a fifth of an undisturbed quick
+# run: the host is shared), thorough = 15 x
+_NEW_MIN9 = {
+    'keyset_sets': 2000, 'keyset_surplus': 4000, 'keyset_equal': 3000,
+    'keyset_cases_with_surplus_values_ok': 800, 'keyset_constant': 300,
+    'keyset_between': 1000, 'keyset_first': 500, 'keyset_last': 150,
+    'keyset_size1': 300, 'keyset_size2': 900, 'keyset_size3': 600,
+    'keyset_in_pbind': 1200, 'keyset_in_pmono': 200,
+    'keyset_in_pmono_artic': 20, 'keyset_in_pchain_left': 100,
+    'keyset_short_rows_too-few-values': 60, 'keyset_short_rows_no-list': 30,
+    'pattern_fault_kind_short-key-set': 100,
+    'tl_cases_with_key_sets_ok': 1000, 'control_cases_with_key_sets_ok': 150,
+    'entry_cases_with_key_sets_ok': 120,
+    'mono_control_cases_with_key_sets_ok': 50,
+    'mono_control_cases_ok': 500,
+    'mono_control_nodes_released_exactly_once': 1000,
+    'mono_mono_set_checked': 1200,
+    **{f'mono_control_node_released_by_{k}': v for k, v in (
+        ('stop', 80), ('reset', 100), ('reset-play', 80), ('play-reset', 120),
+        ('end-of-pattern', 300), ('scheduled', 80), ('pdur-cut', 40),
+        ('call-after-failed-event', 60))},
+    **{f'mono_control_{k}_with_a_node_alive': v for k, v in (
+        ('stop', 100), ('reset', 100), ('reset-play', 100),
+        ('play-reset', 120), ('pause', 250), ('resume', 150))},
+    'mono_control_runs_that_died_of_a_failing_event': 250,
+    'mono_control_repaired_and_restarted': 80,
+    'mono_control_restarted_without_repair': 70,
+    'mono_control_node_alive_when_its_line_failed': 50,
+    'mono_control_with_pmono': 300, 'mono_control_with_pmono_artic': 150,
+    'tl_same_player_restarted_after_stop': 200,
+    'tl_same_player_restart_nodes_released_by_the_stop': 60,
+    'tl_restart_by_reset-play': 100, 'tl_restart_by_play-reset': 60,
+    'tl_restart_by_new-player': 50,
+}
 MIN_COUNTERS = {
     'quick': {'chain_lookups_compared': 10000, 'scale_keys_compared': 3000,
               'play_s_new_checked': 5000, 'play_gate_off_checked': 2000,
@@ -320,7 +430,7 @@ MIN_COUNTERS = {
               'tl_reuse_cut-then-full': 40, 'tl_reuse_players-overlap': 40,
               'tl_reuse_stop-replay': 40, 'tl_reuse_par-twice': 20,
               **{k: v for k, v in _NEW_MIN.items()},
-              **_NEW_MIN8},
+              **_NEW_MIN8, **_NEW_MIN9},
     'thorough': {'chain_lookups_compared': 300000, 'scale_keys_compared': 100000,
                  'play_s_new_checked': 80000, 'play_gate_off_checked': 30000,
                  'play_no_gate_checked': 30000,
@@ -341,7 +451,8 @@ MIN_COUNTERS = {
                  'tl_reuse_cut-then-full': 800, 'tl_reuse_players-overlap': 800,
                  'tl_reuse_stop-replay': 800, 'tl_reuse_par-twice': 400,
                  **{k: v * 15 for k, v in _NEW_MIN.items()},
-                 **{k: v * 15 for k, v in _NEW_MIN8.items()}},
+                 **{k: v * 15 for k, v in _NEW_MIN8.items()},
+                 **{k: v * 15 for k, v in _NEW_MIN9.items()}},
 }
 
 
@@ -351,12 +462,14 @@ def plan(tier, seed):
     # ~15 s and thorough ~6 min; on a loaded one the `secs` cap ends the shards
     secs = 40 if q else 570
     # 16 shards: one wave of the driver's 16 workers
-    sizes = {'chain': (120000, 2) if q else (3600000, 2),
+    # (round 9: the control shards also hold the mono-line histories and the
+    # short key sets - a third shard, taken from the cheap chain monitor)
+    sizes = {'chain': (110000, 1) if q else (3600000, 2),
              'scale': (30000, 1) if q else (1000000, 1),
              'play': (40000, 3) if q else (1600000, 4),
-             'timeline': (40000, 7) if q else (900000, 6),
+             'timeline': (40000, 7) if q else (900000, 5),
              'fault': (12000, 1) if q else (300000, 1),
-             'control': (12000, 2) if q else (300000, 2)}
+             'control': (15000, 3) if q else (400000, 3)}
     shards = []
     for kind, (total, parts) in sizes.items():
         for p, (f, n) in enumerate(split(total, parts)):
@@ -899,6 +1012,7 @@ def _diff_class(k):
                      ('rest-sent-traffic', 'rest-played'),
                      ('unexpected-traffic', 'unexpected-traffic'),
                      ('total-duration', 'end-of-player-differs'),
+                     ('player-still-running', 'end-of-player-differs'),
                      ('gate-off', 'gate-off-differs'),
                      ('mono-release', 'mono-release-differs')):
         if k.startswith(pre):
@@ -930,6 +1044,67 @@ def _diff_time(k, d, ex):
     return None
 
 
+def _mono_diff_class(k):
+    """Class of a difference of a mono line under player control: what
+    happened to a node (released twice, never, at the wrong time, traffic for
+    a node nobody expects), else the time line / the message contents."""
+    for pre, cls in (('mono-release-duplicated', 'node-released-twice'),
+                     ('unexpected-traffic/n_set', 'node-released-twice'),
+                     ('unexpected-traffic/n_free', 'node-released-twice'),
+                     ('mono-release-missing', 'node-never-released'),
+                     ('time/mono-release', 'node-released-at-wrong-time'),
+                     ('missing-n_set/mono', 'mono-set-missing'),
+                     ('duplicate-n_set/mono', 'mono-set-sent-twice'),
+                     ('time/n_set/mono', 'mono-set-at-wrong-time')):
+        if k.startswith(pre):
+            return cls
+    return _control_diff_class(k)
+
+
+def _key_set_counts(acc, case, mon):
+    st = case.get('keysets')
+    if not st:
+        return
+    acc.count(f'{mon}_cases_with_key_sets_ok')
+    for k in ('sets', 'surplus', 'equal', 'constant', 'between', 'first',
+              'last', 'size1', 'size2', 'size3', 'in_pbind', 'in_pmono',
+              'in_pmono_artic', 'in_pchain_left'):
+        if st.get(k):
+            acc.count(f'keyset_{k}', st[k])
+    if st.get('surplus'):
+        acc.count('keyset_cases_with_surplus_values_ok')
+
+
+def _key_set_culprit(case, failed_without):
+    """A case with key sets (tuple keys) differs from its expectation: is it
+    the key sets?  failed_without(case2) -> bool runs a variant of the case.
+    'value-list-longer-than-the-key-set': the case passes once the surplus
+    values of the rows are removed; 'one-value-per-key': it passes once the
+    key sets are written out as plain keys; None: not a matter of key sets."""
+    from vf import c14_gen as gen
+    if not case.get('keysets'):
+        return None
+    try:
+        if case['keysets'].get('surplus') and not failed_without(
+                gen.key_set_variant(case, 'no-surplus')):
+            return 'value-list-longer-than-the-key-set'
+        if not failed_without(gen.key_set_variant(case, 'plain')):
+            return 'one-value-per-key'
+    except Exception:       # noqa
+        pass
+    return None
+
+
+def _control_failed(case, info, groups):
+    from vf import c14_run as run
+    ex = run.expect_control(case, info, groups)
+    cap = run.run_control_case(case)
+    allowed = len(ex.control.deaths) if case.get('dies') else 0
+    if cap.raised is not None or len(cap.task_errors) > allowed:
+        return True
+    return bool(run.compare(ex, cap, run._NoCount(), 'control', False))
+
+
 def run_control(spec, acc):
     """Three kinds of cases (c14_gen.control_shard_case):
     player control - one EventStreamPlayer under a history of mute / unmute /
@@ -952,10 +1127,18 @@ def run_control(spec, acc):
                 acc.count('control_cases_skipped_action_at_a_wake_up')
                 continue
             cap = run.run_control_case(case)
+            raised = cap.raised is not None or bool(cap.task_errors)
+            bad = [] if raised else run.compare(ex, cap, acc, 'control',
+                                                False)
+            if raised or bad:
+                ks = _key_set_culprit(case, lambda c2: _control_failed(
+                    c2, info, groups))
+                if ks:
+                    _key_set_violation(acc, i, ks, case, cap, bad)
+                    continue
             if _report_raises(acc, 'player-control', cap, i,
                               {'control_case': case}):
                 continue
-            bad = run.compare(ex, cap, acc, 'control', False)
             acts = case['controls']
             if bad:
                 # after which control call does the first difference lie
@@ -995,6 +1178,7 @@ def run_control(spec, acc):
                      'first': first[1], 'player_ended_at': cap.elapsed})
                 continue
             acc.count('control_cases_ok')
+            _key_set_counts(acc, case, 'control')
             acc.count(f"control_family_{case['family']}")
             acc.count(f"control_clock_{case['clock']}")
             c = ex.control
@@ -1016,12 +1200,21 @@ def run_control(spec, acc):
                 acc.sample({'case': i, 'control_case': case,
                             'score': [[t, m.plain()] for t, m in cap.raw]})
             continue
+        if form == 'mono-control':
+            _run_mono_control(acc, i, case, info, groups)
+            continue
         if form == 'pattern-fault':
             ex = run.expect_pattern_fault(case, info, groups)
             cap = run.run_pattern_fault_case(case)
             acc.count('pattern_fault_cases')
             if cap.raised is not None or \
                     len(cap.task_errors) > ex.failing_players:
+                ks = _key_set_culprit(case, lambda c2: _pattern_fault_failed(
+                    c2, info, groups))
+                if ks:
+                    _key_set_violation(acc, i, ks, case, cap, [],
+                                       ex.failing_players)
+                    continue
                 if cap.raised is None:
                     cap.task_errors = cap.task_errors[ex.failing_players:]
                 _report_raises(acc, 'pattern-fault', cap, i,
@@ -1030,6 +1223,22 @@ def run_control(spec, acc):
             acc.count('pattern_fault_players_that_raised',
                       len(cap.task_errors))
             bad = run.compare(ex, cap, acc, 'pfault', False)
+            if bad and case.get('keysets'):
+                ks = _key_set_culprit(case, lambda c2: _pattern_fault_failed(
+                    c2, info, groups))
+                if ks:
+                    _key_set_violation(acc, i, ks, case, cap, bad,
+                                       len(cap.task_errors))
+                    continue
+            if bad and case['fault']['kind'] == 'short-key-set':
+                acc.violation(
+                    'C14/key-set/value-list-shorter-than-the-key-set/'
+                    'players-beside-it-or-rows-before-it-differ',
+                    {'case': i, 'fault_case': case,
+                     'class': _diff_class(bad[0][0]),
+                     'differences': sorted({k for k, _ in bad})[:8],
+                     'first': bad[0][1]})
+                continue
             if bad:
                 acc.violation(
                     'C14/players-beside-a-failing-event/'
@@ -1039,7 +1248,12 @@ def run_control(spec, acc):
                      'first': bad[0][1]})
                 continue
             acc.count('pattern_fault_cases_ok')
+            _key_set_counts(acc, case, 'pattern_fault')
             acc.count(f"pattern_fault_kind_{case['fault']['kind']}")
+            if case['fault']['kind'] == 'short-key-set':
+                acc.count('keyset_short_rows_' + (
+                    'no-list' if not isinstance(case['fault']['bad'], dict)
+                    else 'too-few-values'))
             acc.count('pattern_fault_plays_of_the_failing_pattern',
                       ex.failing_players)
             continue
@@ -1048,6 +1262,11 @@ def run_control(spec, acc):
         kinds = _flat_kinds(pat)
         failed, cap, ex, bad = _entry_run(case, info, groups, acc, 'entry')
         if failed:
+            ks = _key_set_culprit(case, lambda c2: _entry_run(
+                c2, info, groups, run._NoCount(), 'entry')[0])
+            if ks:
+                _key_set_violation(acc, i, ks, case, cap, bad)
+                continue
             culprit = _entry_culprit(case, info, groups)
             if cap.raised is not None or cap.task_errors:
                 err = cap.raised or cap.task_errors[0][1]
@@ -1069,6 +1288,7 @@ def run_control(spec, acc):
                  'first': first[1]})
             continue
         acc.count('entry_cases_ok')
+        _key_set_counts(acc, case, 'entry')
         for e_ in case['entry']:
             acc.count(f'entry_{e_}')
         for k in kinds:
@@ -1076,6 +1296,177 @@ def run_control(spec, acc):
         if acc.want_sample() and len(ex.notes) <= 6 and len(case['entry']) > 1:
             acc.sample({'case': i, 'timeline_case': case,
                         'score': [[t, m.plain()] for t, m in cap.raw]})
+
+
+def _key_set_violation(acc, i, ks, case, cap, bad, allowed=0):
+    """allowed: logged errors that belong to the case (failing elements)."""
+    errors = cap.task_errors[allowed:]
+    err = cap.raised or (errors[0][1] if errors else None)
+    if err is not None or errors:
+        # (one key: the diagnosis names the mechanism, whatever exception
+        # the misplaced values end in)
+        acc.violation(
+            f'C14/key-set-raises/{ks}',
+            {'case': i, 'timeline_case': case,
+             'exception': exc_key(err) if err is not None else 'logged-error',
+             'tb': short_tb(err) if err is not None else errors[0][0]})
+        return
+    first = bad[0]
+    k = first[0].split('/', 2)[-1] if first[0].startswith('C14/') \
+        else first[0]
+    acc.violation(
+        f'C14/key-set/{ks}/{_control_diff_class(k)}',
+        {'case': i, 'timeline_case': case,
+         'differences': sorted({k_ for k_, _ in bad})[:8],
+         'first': first[1], 'player_ended_at': cap.elapsed})
+
+
+def _run_mono_control(acc, i, case, info, groups):
+    """A player over mono lines (Pmono / PmonoArtic) under control calls
+    while the node of a line is alive: see c14_gen.mono_control_case."""
+    from vf import c14_run as run
+    ex = run.expect_control(case, info, groups)
+    if ex is None:
+        acc.count('control_cases_skipped_action_at_a_wake_up')
+        return
+    c = ex.control
+    cap = run.run_control_case(case)
+    fault = case.get('fault')
+    # the failing element: one logged error per run that dies of it
+    allowed = len(c.deaths) if fault else 0
+    raised = cap.raised is not None or len(cap.task_errors) > allowed
+    bad = [] if raised else run.compare(ex, cap, acc, 'mono', False)
+    if (raised or bad) and case.get('keysets'):
+        ks = _key_set_culprit(case, lambda c2: _control_failed(c2, info,
+                                                               groups))
+        if ks:
+            _key_set_violation(acc, i, ks, case, cap, bad, allowed)
+            return
+    acts = case['controls']
+
+    def last_call(t0):
+        before = [a for a in acts if a['do'] in (
+            'pause', 'resume', 'play', 'reset', 'stop', 'reset-play',
+            'play-reset') and (t0 is None
+                               or a['at'] + case['latency'] <= t0 + 1e-9)]
+        where = f"after-{before[-1]['do']}" if before else 'after-play'
+        if fault and c.deaths and (t0 is None or min(c.deaths.values())
+                                   + case['latency'] <= t0 + 1e-9):
+            where = 'after-failed-event-and-' + (
+                before[-1]['do'] if before and before[-1]['at'] >
+                min(c.deaths.values()) else 'nothing')
+        return where
+    if raised:
+        if cap.raised is None:
+            cap.task_errors = cap.task_errors[allowed:]
+        err = cap.raised or cap.task_errors[0][1]
+        # (one key whichever call raised: reset(), reset() + play(),
+        # play(reset=True) share the code)
+        sites = tb_sites(err) if err is not None else []
+        inside_reset = 'reset' in (cap.extra.get('raised_in') or '') and \
+            ('eventstream.py', 'clear') in sites
+        acc.violation(
+            'C14/player-control-mono-raises/'
+            + ('reset-runs-the-pattern-that-follows-in-the-sequence/'
+               + type(err).__name__ if inside_reset and sites[-1] != (
+                   'eventstream.py', 'clear')
+               else exc_key(err) if err is not None else 'logged-error'),
+            {'case': i, 'control_case': case,
+             'raised_in': cap.extra.get('raised_in') or 'player',
+             'tb': short_tb(err) if err is not None else
+             cap.task_errors[0][0]})
+        return
+    if bad:
+        times = [t for t in (_diff_time(k, d, ex) for k, d in bad)
+                 if t is not None]
+        t0 = min(times) if times else None
+        first = sorted(bad, key=lambda kd: (
+            _diff_time(kd[0], kd[1], ex) or float('inf')))[0]
+        # a node that is released twice / never is the mechanism whatever
+        # else differs
+        classes = [_mono_diff_class(k) for k, _ in bad]
+        cls = next((c_ for c_ in ('node-released-twice',
+                                  'node-never-released') if c_ in classes),
+                   _mono_diff_class(first[0]))
+        key = f'C14/player-control-mono/{last_call(t0)}/{cls}'
+        if cls == 'node-released-twice':
+            # one mechanism whatever the history: named by the call at
+            # which the extra release was sent (reset, reset + play and
+            # play(reset=True) are one: the reset)
+            ts = []
+            for k, d in bad:
+                if k.startswith('mono-release-duplicated'):
+                    ts += sorted(d['released_at'])[1:]
+                elif k.startswith('unexpected-traffic/n_'):
+                    ts.append(d['t'])
+            t2 = min(ts) - case['latency'] if ts else None
+            call = next((a['do'] for a in acts if t2 is not None
+                         and abs(a['at'] - t2) < 1e-6), 'no-call')
+            call = 'reset' if 'reset' in call else call
+            key = f'C14/player-control-mono/node-released-twice/at-{call}'
+        acc.violation(
+            key,
+            {'case': i, 'control_case': case, 'first_difference_at': t0,
+             'differences': sorted({k for k, _ in bad})[:8],
+             'first': first[1], 'player_ended_at': cap.elapsed,
+             'voices': ex.voices})
+        return
+    acc.count('mono_control_cases_ok')
+    _key_set_counts(acc, case, 'mono_control')
+    acc.count(f"mono_control_shape_{case['shape']}")
+    acc.count(f"mono_control_family_{case['family']}")
+    acc.count(f"mono_control_clock_{case['clock']}")
+    kinds = _flat_kinds(case['pattern'])
+    for k in ('pmono', 'pmono_artic'):
+        if k in kinds:
+            acc.count(f'mono_control_with_{k}')
+    for do, n_ in c.effect.items():
+        acc.count(f'mono_control_{do}_with_effect', n_)
+    acc.count('mono_control_runs_checked', c.runs)
+    acc.count('mono_control_nodes_released_exactly_once', len(ex.voices))
+    for run_, _mid, _t, _x, by in ex.voices:
+        acc.count(f'mono_control_node_released_by_{by}')
+    # calls made while a node of a line was alive (from its /s_new to its
+    # release; after a failing element: to the first call that stops or
+    # restarts the player)
+    L = case['latency']
+    born = {n['mono']: n['time'] - L for n in ex.notes
+            if n['mono'] is not None}
+    spans = []
+    for run_, mid, t_, _x, by in ex.voices:
+        if (run_, mid) not in born:
+            continue
+        end = t_
+        if by == 'call-after-failed-event':
+            end = next((a['at'] for a in acts if a['at'] > t_ and a['do'] in (
+                'stop', 'reset-play', 'play-reset')), float('inf'))
+        spans.append((born[(run_, mid)], end))
+    for a in acts:
+        if any(b < a['at'] <= e for b, e in spans):
+            acc.count(f"mono_control_{a['do']}_with_a_node_alive")
+    if fault:
+        acc.count('mono_control_runs_that_died_of_a_failing_event',
+                  len(c.deaths))
+        acc.count(f"mono_control_fault_kind_{fault['kind']}")
+        if c.repair_before is not None:
+            acc.count('mono_control_repaired_and_restarted')
+        elif c.runs > 1:
+            acc.count('mono_control_restarted_without_repair')
+        if any(by == 'call-after-failed-event' for *_x, by in ex.voices):
+            acc.count('mono_control_node_alive_when_its_line_failed')
+    if acc.want_sample() and len(ex.notes) + len(ex.sets) <= 10 \
+            and len(acts) >= 2 and ex.voices:
+        acc.sample({'case': i, 'control_case': case,
+                    'score': [[t, m.plain()] for t, m in cap.raw]})
+
+
+def _pattern_fault_failed(case, info, groups):
+    from vf import c14_run as run
+    ex = run.expect_pattern_fault(case, info, groups)
+    cap = run.run_pattern_fault_case(case)
+    if cap.raised is not None or len(cap.task_errors) > ex.failing_players:
+        return True
+    return bool(run.compare(ex, cap, run._NoCount(), 'pfault', False))
 
 
 def _entry_run(case, info, groups, acc, mon):
@@ -1143,6 +1534,18 @@ def _entry_culprit(case, info, groups):
     return 'pevent' if 'pevent' in feats else feats[0]
 
 
+def _timeline_failed(case, info, groups):
+    from vf import c14_run as run, model_events as me
+    case = dict(case)
+    case.pop('expanded', None)
+    cap, start = run.run_timeline_case(case)
+    case['expanded'] = me.expand(case['pattern'], case.get('shared') or {})
+    ex = run.expect_timeline(case, start, info, groups)
+    if cap.raised is not None or cap.task_errors:
+        return True
+    return bool(run.compare(ex, cap, run._NoCount(), 'tl', case['offgrid']))
+
+
 def _rest_valued_delta_onsets(case, tl):
     """Onsets (relative) of events that hand a Rest-valued delta straight to the
     player: a Rest in dur/stretch/delta of a leaf that is not below a Ppar."""
@@ -1193,6 +1596,17 @@ def run_timeline(spec, acc):
             # is no control of the instrument): what else differs follows
             played = any(k == 'rest-sent-traffic'
                          and d.get('tag') in ex.odd_rest_tags for k, d in bad)
+        if case.get('keysets') and (err is not None or cap.task_errors
+                                    or bad):
+            # key sets (tuple keys): a difference / exception that is gone
+            # once the key sets are written out (or their surplus values
+            # removed) belongs to them
+            ks = _key_set_culprit(case, lambda c2: _timeline_failed(
+                c2, info, groups))
+            if ks:
+                del case['expanded']
+                _key_set_violation(acc, i, ks, case, cap, bad)
+                continue
         # diagnosis: a child of a Ppar whose event is a rest only by the Rest
         # object in its delta - the Ppar replaces the delta by a plain number
         # and the event is played (a Pmono child's first event: before it was
@@ -1269,8 +1683,40 @@ def run_timeline(spec, acc):
             # the same pattern object embedded / played more than once: one
             # mechanism class per kind of re-use history
             acc.count(f"tl_reuse_{case['form']}")
+            same = case.get('restart', 'new-player') != 'new-player'
             if not full:
                 acc.count('tl_reuse_cases_ok')
+                _key_set_counts(acc, case, 'tl')
+                if case['form'] == 'stop-replay':
+                    acc.count(f"tl_restart_by_{case['restart']}")
+                    if same:
+                        # mono nodes that were alive when the player was
+                        # stopped (released there, once) before a restart
+                        n_alive = sum(
+                            1 for (_st, tl_), pl in zip(ex.tls, case['plays'])
+                            if pl.get('stop') is not None
+                            and pl is not case['plays'][-1]
+                            for t_, _m, _x in tl_.releases
+                            if t_ == pl['stop'] - pl['at'])
+                        acc.count('tl_same_player_restarted_after_stop')
+                        acc.count('tl_same_player_restart_nodes_released_'
+                                  'by_the_stop', n_alive)
+            if bad and same:
+                # the SAME player restarted (reset + play / play(reset=True))
+                # after a stop: what happened to the mono nodes, else the
+                # time line
+                classes = [_mono_diff_class(k) for k, _ in bad]
+                cls = next((c_ for c_ in ('node-released-twice',
+                                          'node-never-released')
+                            if c_ in classes), classes[0])
+                acc.violation(
+                    'C14/timeline-object-reuse/same-player-restarted-after-'
+                    f'stop/{cls}',
+                    {'case': i, 'form': case['form'],
+                     'restart': case['restart'],
+                     'differences': sorted({k for k, _ in bad}),
+                     'first': bad[0][1], 'timeline_case': case})
+                continue
             if bad:
                 cls = {'cut-then-full': 'embedded-again-after-a-cut',
                        'cuts': 'embedded-again-after-a-cut',
@@ -1322,6 +1768,7 @@ def run_timeline(spec, acc):
             acc.violation(k if k.startswith('C14/') else f'C14/timeline/{k}',
                           dict(detail, case=i, timeline_case=case))
         if not full:
+            _key_set_counts(acc, case, 'tl')
             acc.count('tl_rests_silent', ex.rests)
             for c, k in ex.rest_classes.items():
                 acc.count(f'tl_rests_with_rest_object_in_{c}_key', k)
